@@ -4,8 +4,9 @@ check("C01",
   "BSpline.spline_spec = the sum over ALL stored coefficients of coefficient x product over dimensions of the Cox-de Boor function of the stored order on the stored knots, "
   "right-continuous below the upper end of full support and left-continuous from there upwards - interior, both margins and exactly on knots (C01_eval_is_tensor_sum; parts: "
   "C01_local_basis = de Boor recurrence + margin walk + re-indexing of bsplvb_simple in one dimension, C01_core_is_block_sum = the odometer walk over the coefficient block). "
-  "The one excluded point class (x exactly on a repeated knot at the upper end of full support: zero-width interval, 0/0) is shown necessary by C01_refuted_without_regularity and is the "
-  "known finding D17. Tie: the same polymorphic term instantiated with IEEE binary32/binary64 is compared BITWISE with ndsplineeval<float/double>, operator() and the C wrapper on generated "
+  "On a repeated knot at the upper end of full support the lookup steps down to the nearest span of positive width (repair of D17, /repo 204cbcc; C04_post), so the only hypothesis left is that the fully "
+  "supported range of a dimension is not the single point x — implied by knots[order] < knots[naxes], a condition on the table alone (C01_eval_is_tensor_sum_nondegenerate); that residual point is shown "
+  "necessary by C01_refuted_without_regularity and is an open known finding. Tie: the same polymorphic term instantiated with IEEE binary32/binary64 is compared BITWISE with ndsplineeval<float/double>, operator() and the C wrapper on generated "
   "tables/points aimed at the proof's case splits (minimal knot count, margins, knots and their float neighbours, order 0..5, 1..9 dims, NaN/huge padding); the property itself is judged on "
   "the implementation against exact rationals (Python transcription of BSpline.v, cross-checked for equality with the extracted Coq spec on every run) with the bound K*u*sum|terms|.",
   "Partial: the rounding gap between the exact-field instance and the float instance of the same term is measured (bound K=16*sum(order+2) ulps of sum|terms|), not proved. "
